@@ -1498,3 +1498,158 @@ func fmtEmitted[T any](es []T) string {
 	s = strings.ReplaceAll(s, "{66 ", "(SetBg, ")
 	return strings.ReplaceAll(s, "}", ")")
 }
+
+// checkFiniSafeBeforeInit: Fini must be callable on a screen whose Init failed (a deferred Fini after
+// `if err := s.Init(); err != nil` is ordinary code).  Some fields only exist once Init has got far
+// enough: the quit channel, possibly the Tty.  On the shutdown path (Fini and what it calls), closing
+// such a channel or calling a method on such an interface value must sit behind a non-nil test of that
+// field, or behind the running flag (which only a completed engage sets).  The simulation screen has
+// that test; the terminfo screen must have it too.
+func checkFiniSafeBeforeInit(c *Ctx, p *Prog, rule, tname string) {
+	owner := "tcell." + tname
+	initFn := p.Fn("tcell:(*" + tname + ").Init")
+	fini := p.Fn("tcell:(*" + tname + ").Fini")
+	if initFn == nil || fini == nil {
+		c.Undecided(rule, tname+":Fini-before-Init", "-", "Init or Fini not found")
+		return
+	}
+	closure := func(root *ssa.Function) []*ssa.Function {
+		seen := map[*ssa.Function]bool{}
+		var out []*ssa.Function
+		var walk func(f *ssa.Function)
+		walk = func(f *ssa.Function) {
+			if f == nil || seen[f] || len(f.Blocks) == 0 {
+				return
+			}
+			if f.Pkg != p.Tcell && !(f.Pkg == nil && strings.HasSuffix(f.Name(), "$bound")) {
+				return // (the wrapper of a method value, `t.finish` handed to Once.Do, has no package)
+			}
+			seen[f] = true
+			out = append(out, f)
+			eachInstr(f, func(in ssa.Instruction) {
+				if _, isGo := in.(*ssa.Go); isGo {
+					return
+				}
+				if cc := callCommon(in); cc != nil {
+					walk(cc.StaticCallee())
+					// a method value handed to sync.Once.Do and the like
+					for _, a := range cc.Args {
+						if mc, ok := a.(*ssa.MakeClosure); ok {
+							if fn, isFn := mc.Fn.(*ssa.Function); isFn {
+								walk(fn)
+							}
+						}
+					}
+				}
+			})
+		}
+		walk(root)
+		return out
+	}
+	// fields that come into being during Init
+	made := map[string]bool{}
+	for _, f := range closure(initFn) {
+		eachInstr(f, func(in ssa.Instruction) {
+			if st, ok := in.(*ssa.Store); ok {
+				if ref, _, isF := fieldAddrRef(st.Addr); isF && ref.Owner == owner {
+					switch st.Val.Type().Underlying().(type) {
+					case *types.Chan, *types.Interface:
+						made[ref.Name] = true
+					}
+				}
+			}
+		})
+	}
+	n, bad := 0, ""
+	for _, f := range closure(fini) {
+		eachInstr(f, func(in ssa.Instruction) {
+			cc := callCommon(in)
+			if cc == nil {
+				return
+			}
+			var subject ssa.Value
+			what := ""
+			if b, isB := cc.Value.(*ssa.Builtin); isB && b.Name() == "close" && len(cc.Args) == 1 {
+				subject, what = cc.Args[0], "close of"
+			} else if cc.IsInvoke() {
+				subject, what = cc.Value, "call of "+cc.Method.Name()+" on"
+			}
+			if subject == nil {
+				return
+			}
+			// through a local copy (stopQ := t.stopQ)
+			ref, _, isF := loadedField(derefCell(subject))
+			if !isF || ref.Owner != owner || !made[ref.Name] {
+				return
+			}
+			n++
+			guarded := false
+			gs := rawGuardsAt(in.Block())
+			// a function literal runs where it was made (`if s.quit != nil { s.finiOnce.Do(func() { close(s.quit) }) }`)
+			if par := f.Parent(); par != nil {
+				eachInstr(par, func(pi ssa.Instruction) {
+					if mc, ok := pi.(*ssa.MakeClosure); ok && mc.Fn == ssa.Value(f) {
+						gs = append(gs, rawGuardsAt(pi.Block())...)
+					}
+				})
+			}
+			for _, g := range gs {
+				cond, pos := g.Cond, g.Positive
+				for {
+					if u, ok := cond.(*ssa.UnOp); ok && u.Op == token.NOT {
+						cond, pos = u.X, !pos
+						continue
+					}
+					break
+				}
+				if r2, _, ok := loadedField(cond); ok && r2.Owner == owner && r2.Name == "running" && pos {
+					guarded = true
+				}
+				if bo, ok := cond.(*ssa.BinOp); ok && isNilConst(bo.Y) {
+					if r2, _, ok2 := loadedField(bo.X); ok2 && r2 == ref && ((bo.Op == token.NEQ && pos) || (bo.Op == token.EQL && !pos)) {
+						guarded = true
+					}
+				}
+			}
+			// … the running test made by a boolean helper (`if !t.stopLoops() { return }`, which answers
+			// true only where it found the screen running)
+			if !guarded {
+				for _, a := range guardsAt(in.Block()) {
+					if strings.HasSuffix(a.L, ".running") && ((a.Op == "==" && a.R == "true") || (a.Op == "!=" && a.R == "false")) {
+						guarded = true
+					}
+				}
+			}
+			// … or the function makes the channel itself where it finds none:
+			// `if t.quit == nil { t.quit = make(chan …) }` before the use
+			if !guarded {
+				for _, st := range storesTo(f, owner, ref.Name) {
+					if _, isMake := st.Val.(*ssa.MakeChan); !isMake {
+						continue
+					}
+					for _, blk := range f.Blocks {
+						if len(blk.Instrs) == 0 {
+							continue
+						}
+						iff, isIf := blk.Instrs[len(blk.Instrs)-1].(*ssa.If)
+						if !isIf || !blk.Dominates(in.Block()) || blk.Succs[0] != st.Block() {
+							continue
+						}
+						bo, isBO := iff.Cond.(*ssa.BinOp)
+						if !isBO || bo.Op != token.EQL || !isNilConst(bo.Y) {
+							continue
+						}
+						// the then-branch is the store and falls into what follows the if
+						if r2, _, ok2 := loadedField(bo.X); ok2 && r2 == ref && len(st.Block().Succs) == 1 && st.Block().Succs[0] == blk.Succs[1] && blk.Succs[1].Dominates(in.Block()) {
+							guarded = true
+						}
+					}
+				}
+			}
+			if !guarded {
+				bad += fmt.Sprintf("%s t.%s in %s (%s) runs whether or not Init got far enough to make it; ", what, ref.Name, f.Name(), p.pos(in.Pos()))
+			}
+		})
+	}
+	c.Check(n > 0 && bad == "", rule, tname+":Fini-before-Init", p.pos(fini.Pos()), fmt.Sprintf("%d use(s) on the shutdown path of channels and interfaces that Init creates, each behind a non-nil test or the running flag %s", n, bad))
+}
